@@ -345,7 +345,7 @@ def _slp(mon, case, logits, hyp, dim, eos, documented=()):
     import pydrobert.torch.modules as M
 
     if case["form"] == "module":
-        return mon.lib("sequence_log_probs", lambda: M.SequenceLogProbabilities(dim, eos)(logits, hyp),
+        return mon.lib("sequence_log_probs", lambda: LY.travelled(M.SequenceLogProbabilities(dim, eos), hyp.numel(), dim)(logits, hyp),
                        documented=documented)
     return mon.lib("sequence_log_probs", lambda: F.sequence_log_probs(logits, hyp, dim, eos),
                    documented=documented)
@@ -738,7 +738,7 @@ def _exec_greedy(case, mon):
             "greedy_batch_first" if case["batch_first"] else "greedy_time_first",
             "greedy_no_lens" if lens is None else ("greedy_lens_with_zero" if 0 in lens else "greedy_lens"))
     if case["form"] == "module":
-        call = lambda: M.CTCGreedySearch(blank, case["batch_first"], is_probs)(inp.clone(), lt)
+        call = lambda: LY.travelled(M.CTCGreedySearch(blank, case["batch_first"], is_probs), inp.numel(), blank)(inp.clone(), lt)
     else:
         call = lambda: F.ctc_greedy_search(inp.clone(), lt, blank, case["batch_first"], is_probs)
     mx, paths, out_lens = mon.lib("ctc_greedy_search", call)
